@@ -245,7 +245,7 @@ fn test_hist(c: &HCase) -> TestResult {
             HAct::Base(Act::ConsumeStream(k)) => d.consume_stream(*k as usize, &truth)?,
             HAct::Base(Act::Compress) => d.compress(&truth)?,
             HAct::Base(Act::ConsumeOutput(k)) => d.consume_output(*k as usize)?,
-            HAct::Base(Act::Advance) => c02::maybe_advance(&mut d, &order, &truth)?,
+            HAct::Base(Act::Advance) | HAct::Base(Act::ForceAdvance) => c02::maybe_advance(&mut d, &order, &truth)?,
             HAct::Select(sel) => {
                 let cur = d.active();
                 let want = accepts(&order, cur, *sel);
